@@ -654,7 +654,8 @@ void d_string_erase(DString * baseString, size_t pos, size_t len) {
 			return;
 		}
 
-		if ((pos + len) >= baseString->currentStringLength) {
+		if (len >= baseString->currentStringLength - pos) {
+			// Written this way so that `pos + len` can not wrap around
 			len = -1;
 		}
 
@@ -708,7 +709,8 @@ char * d_string_copy_substring(DString * d, size_t start, size_t len) {
 			}
 		}
 
-		if (start + len > d->currentStringLength) {
+		if ((start > d->currentStringLength) || (len > d->currentStringLength - start)) {
+			// Written this way so that `start + len` can not wrap around
 			fprintf(stderr, "d_string: Asked to copy invalid substring range.\n");
 			fprintf(stderr, "start: %lu  len: %lu  string: %lu\n", start, len,
 					d->currentStringLength);
@@ -773,14 +775,11 @@ long d_string_replace_text_in_range(DString * d, size_t pos, size_t len, const c
 
 		size_t stop;
 
-		if (len == -1) {
+		if ((len == -1) || (len > d->currentStringLength - pos)) {
+			// Written this way so that `pos + len` can not wrap around
 			stop = d->currentStringLength;
 		} else {
 			stop = pos + len;
-
-			if (stop > d->currentStringLength) {
-				stop = d->currentStringLength;
-			}
 		}
 
 		char * match = strstr(&(d->str[pos]), original);
@@ -791,7 +790,14 @@ long d_string_replace_text_in_range(DString * d, size_t pos, size_t len, const c
 			d_string_insert(d, match - d->str, replace);
 
 			delta += change;
-			stop += change;
+
+			if ((change < 0) && (stop < (size_t)(-change))) {
+				// A match that extended past the end of the range was shortened
+				stop = 0;
+			} else {
+				stop += change;
+			}
+
 			match = strstr(d->str + pos + len_r, original);
 		}
 
